@@ -404,6 +404,8 @@ FAULTS = [
     ("{}SET(R1, 017)", "017", "operand", "octal", []),
     ("{}INC(R1, 65)", "65", "operand", "range", []),
     ("{}BRR(toofar)", "toofar", "either", "far", []),
+    ("{}NOP() : NOP()", ":", "operand", "expected", []),
+    ("{}NOP() :fmt NOP()", ":fmt", "operand", "expected", []),
 ]
 
 
